@@ -10,6 +10,7 @@ META = {
 MODULES = ["contracts.callbacks", "contracts.lemmas", "contracts.local"]
 ONLY = {"contracts.local": ["get_async", "get_async.fire_tasks"], "contracts.lemmas": ["lemma_ceil_div"]}
 LEVEL = "proof"
+DEEP_FALLBACK = True
 EXPLANATION = "Two-state contracts on every operation that touches Callback.active + the stack lemma; callback dispatch inside get_async through ghost flags."
 TRUSTED = ["VC generator /verif/vf", "z3 5.1 / z3 4.8.12", "ASSUMED: local_callbacks swaps the global set out and back (bounded natively)", "ASSUMED: user callbacks do not modify Callback.active or scheduler state"]
 ASSUMPTIONS = ["callback objects are hashable and compared by identity of their 5-tuple", "re-entering the same Callback object while it is already entered overwrites its _cm (not a nesting of contexts; excluded)"]
